@@ -18,7 +18,7 @@ RULE = ("Hypothesis: well-formed notes on 2 channels over 1-3 pitches (abutting 
         "Non-trivial: >= 2 notes of one key and >= 1 note whose duration is not in the list. Distinct by case digest.")
 ASSUMPTIONS = ["total duration (trailing INTERNAL marker) is not part of the statement"]
 TIERS = {"quick": dict(shards=8, examples=1500, alt_ppqn=[480], alt_shards=2),
-         "thorough": dict(size=2, shards=16, examples=25000, alt_ppqn=[480, 7, 1000], alt_shards=4)}
+         "thorough": dict(fuzz_runs=20000, fuzz_shards=4, size=2, shards=16, examples=25000, alt_ppqn=[480, 7, 1000], alt_shards=2)}
 
 VALUES = [1, 2, 3, 4, 5, 6, 7, 8, 12, 16, 24, 36, 48]
 
